@@ -3,6 +3,8 @@ mod proj;
 mod util;
 mod tables;
 mod c04;
+mod c05;
+mod c18;
 
 fn main() {
     std::panic::set_hook(Box::new(|_| {}));    // panics of the code under test are data, not noise
@@ -12,6 +14,8 @@ fn main() {
     match (cmd, id) {
         ("tables", dir) => tables::write(dir),
         ("replay", "C04") => c04::replay(),
+        ("replay", "C05") => c05::replay(),
+        ("replay", "C18") => c18::replay(),
         _ => { eprintln!("usage: asca-conform tables <dir> | replay <id> | record <id> <out>"); std::process::exit(2); }
     }
 }
